@@ -64,6 +64,7 @@ ArithLaws ==
        /\ N(Run1(OP_2MUL, <<a>>)[2]) = IMul(x, IntFromSmall(2))
        /\ Run1(OP_2MUL, <<a>>)[2] = Run1(OP_MUL, <<a, <<2>>>>)[2]
        /\ (Len(Run1(OP_2MUL, <<a>>)[2]) <= 4 => N(Run1(OP_2DIV, <<Run1(OP_2MUL, <<a>>)[2]>>)[2]) = x)
+       /\ Run1(OP_2DIV, <<a>>)[2] = Run1(OP_DIV, <<a, <<2>>>>)[2]
        /\ (y = Zero => Run1(OP_DIV, <<a, b>>)[1] = "failed" /\ Run1(OP_MOD, <<a, b>>)[1] = "failed")
        /\ (y # Zero =>
              LET q == N(Run1(OP_DIV, <<a, b>>)[2])
